@@ -39,10 +39,14 @@ THEOREMS = [
     "SymmModel.C12.gram_charpoly",
     "SymmModel.C12.gram_block_stored",
     "SymmModel.C12.gram_block_missing",
-    "SymmModel.C12.squared_singular_values"
+    "SymmModel.C12.squared_singular_values",
+    "SymmModel.C12.solve_dense",
+    "SymmModel.C12.dual_conj",
+    "SymmModel.C12.solveCopyK_shapeOk",
+    "SymmModel.C12.solveCopyK_solvesOn"
 ]
-LEAN_FILES = ["SymmModel.Props.C12", "SymmModel.Proofs.LinalgLemmas", "SymmModel.Proofs.LinalgFactors", "SymmModel.Proofs.LinalgDense", "SymmModel.Proofs.LinalgSolve", "SymmModel.Props.C12All", "SymmModel.Props.C08b", "SymmModel.Proofs.DenseMore", "SymmModel.Props.C12b", "SymmModel.Proofs.Spectrum", "SymmModel.Proofs.SpectrumAxis", "SymmModel.Proofs.SpectrumDense", "SymmModel.Proofs.SpectrumMore", "SymmModel.Proofs.SpectrumBlock"]
-PLANNED = ["solve_dense (in progress)", "outside the theorems: that LAPACK returns the roots of these characteristic polynomials (numerical validation)"]
+LEAN_FILES = ["SymmModel.Props.C12", "SymmModel.Proofs.LinalgLemmas", "SymmModel.Proofs.LinalgFactors", "SymmModel.Proofs.LinalgDense", "SymmModel.Proofs.LinalgSolve", "SymmModel.Props.C12All", "SymmModel.Props.C08b", "SymmModel.Proofs.DenseMore", "SymmModel.Props.C12b", "SymmModel.Proofs.Spectrum", "SymmModel.Proofs.SpectrumAxis", "SymmModel.Proofs.SpectrumDense", "SymmModel.Proofs.SpectrumMore", "SymmModel.Proofs.SpectrumBlock", "SymmModel.Props.C12c"]
+PLANNED = ["outside the theorems: that LAPACK returns the roots of these characteristic polynomials (numerical validation)"]
 RULE = ("random abelian matrices (all symmetries, dualness, charges, block shapes, sparse, real/complex) and "
         "fermionic ones for singular values and norm: singular values as a multiset vs numpy's SVD of an independent "
         "densification (tolerance 1e-9 relative; matrices with exactly known integer singular values included), "
